@@ -29,9 +29,13 @@ class Server:
         self.workdir = workdir
         os.makedirs(workdir, exist_ok=True)
         self.home = os.path.join(workdir, "home")
-        for d in ("home", "cfg", "data"):
+        for d in ("home", "cfg", "data", "cache", "state", "run", "tmp"):
             os.makedirs(os.path.join(workdir, d), exist_ok=True)
-        self.env = dict(os.environ, HOME=self.home, XDG_CONFIG_HOME=os.path.join(workdir, "cfg"), XDG_DATA_HOME=os.path.join(workdir, "data"))
+        # every directory a program may feel entitled to write to points into the session's own tree, so that the file
+        # audits (C10) see such a write as what it is
+        self.env = dict(os.environ, HOME=self.home, XDG_CONFIG_HOME=os.path.join(workdir, "cfg"), XDG_DATA_HOME=os.path.join(workdir, "data"),
+                        XDG_CACHE_HOME=os.path.join(workdir, "cache"), XDG_STATE_HOME=os.path.join(workdir, "state"), XDG_RUNTIME_DIR=os.path.join(workdir, "run"),
+                        TMPDIR=os.path.join(workdir, "tmp"))
         self.user_dict = os.path.join(workdir, "dict", "user.txt")
         self.file_dict_dir = os.path.join(workdir, "filedicts")
         self.stats_path = os.path.join(workdir, "stats", "stats.txt")
